@@ -169,6 +169,49 @@ Lemma incl_hebrew : incl_check (LCs CHebrew) = true. Proof. vm_compute. reflexiv
 Lemma incl_sjis : incl_check (LCs CSjis) = true. Proof. vm_cast_no_check (eq_refl true). Qed.
 Lemma incl_euckr : incl_check (LCs CEuckr) = true. Proof. vm_cast_no_check (eq_refl true). Qed.
 
+(* ... and the committed known-bad sets are TIGHT: every rune of known/C09-D17-<c>.ranges is admitted by Validate(c)
+   and rejected by the encoder of c.  A stale file (after an upstream repair) or an enlarged one would otherwise
+   weaken every theorem that excludes the known-bad set, unnoticed. *)
+Definition tight_check (l : label) : bool :=
+  incl2 (known_bad_of l) (validate_ranges l) [] && disjoint_sorted (known_bad_of l) (accept_ranges l).
+
+Lemma tight_gsm7 : tight_check LGsm7 = true. Proof. vm_compute. reflexivity. Qed.
+Lemma tight_ascii : tight_check (LCs CAscii) = true. Proof. vm_compute. reflexivity. Qed.
+Lemma tight_latin1 : tight_check (LCs CLatin1) = true. Proof. vm_compute. reflexivity. Qed.
+Lemma tight_cyrillic : tight_check (LCs CCyrillic) = true. Proof. vm_compute. reflexivity. Qed.
+Lemma tight_hebrew : tight_check (LCs CHebrew) = true. Proof. vm_compute. reflexivity. Qed.
+Lemma tight_sjis : tight_check (LCs CSjis) = true. Proof. vm_cast_no_check (eq_refl true). Qed.
+Lemma tight_euckr : tight_check (LCs CEuckr) = true. Proof. vm_cast_no_check (eq_refl true). Qed.
+
+Lemma tight_sound l r : tight_check l = true -> mem r (known_bad_of l) = true ->
+  mem r (validate_ranges l) = true /\ mem r (accept_ranges l) = false.
+Proof.
+  unfold tight_check. rewrite andb_true_iff. intros [Hi Hd] Hr. split.
+  - pose proof (incl2_sound _ _ _ Hi r Hr) as H. cbn [mem existsb] in H. rewrite orb_false_r in H. exact H.
+  - exact (disjoint_sorted_sound _ _ Hd r Hr).
+Qed.
+
+Theorem known_bad_tight l r : mem r (known_bad_of l) = true ->
+  mem r (validate_ranges l) = true /\ mem r (accept_ranges l) = false.
+Proof.
+  intros Hr. destruct l as [|c].
+  - exact (tight_sound _ r tight_gsm7 Hr).
+  - destruct c.
+    + exact (tight_sound _ r tight_ascii Hr).
+    + exact (tight_sound _ r tight_latin1 Hr).
+    + exact (tight_sound _ r tight_sjis Hr).
+    + exact (tight_sound _ r tight_cyrillic Hr).
+    + exact (tight_sound _ r tight_hebrew Hr).
+    + discriminate Hr.
+    + discriminate Hr.
+    + discriminate Hr.
+    + exact (tight_sound _ r tight_euckr Hr).
+Qed.
+
+(* hence an excluded rune really is a rune the detected coding cannot carry: its one-character text is rejected *)
+Lemma lookup_none_enc_rune t r : mem r (ranges_of t) = false -> enc_rune_t t r = None.
+Proof. intros H. unfold enc_rune_t. apply lookup_None_mem in H. rewrite H. reflexivity. Qed.
+
 Lemma accepted l rs : l <> LCs CUcs2 -> incl_check l = true -> validates l rs = true ->
   (forall r, In r rs -> mem r (known_bad_of l) = false) ->
   forall r, In r rs -> mem r (accept_ranges l) = true.
@@ -490,4 +533,29 @@ Proof.
   destruct (compose_parse rs Hs Hk Hc) as [->|(bs & -> & Hp)].
   - left. split; reflexivity.
   - right. cbn [fst snd]. split; [reflexivity|]. split; [reflexivity|exact Hp].
+Qed.
+
+(* the model of Compose is one of the implementations the observation check accepts (so comparing observations with
+   compose_obs_ok demands nothing the model itself does not do) *)
+Lemma beq_bytes_refl : forall b : bytes, beq_bytes b b = true.
+Proof. induction b as [|x b IH]; cbn [beq_bytes]; [reflexivity|]. rewrite N.eqb_refl, IH. reflexivity. Qed.
+Lemma g7_septets_err : forall rs e, g7_septets rs = Err e -> e = EText.
+Proof.
+  induction rs as [|r t IH]; intros e H; cbn [g7_septets] in H; [discriminate|].
+  destruct (g7_rune r); [|congruence]. destruct (g7_septets t) as [ss|e'|]; try discriminate.
+  injection H as <-. exact (IH e' eq_refl).
+Qed.
+Lemma encode_l_err l rs e : encode_l l rs = Err e -> e = EText.
+Proof.
+  destruct l as [|c]; cbn [encode_l]; [|apply encode_err].
+  unfold g7_encode. destruct (g7_septets rs) as [ss|e'|] eqn:E; try discriminate. intros [= <-]. exact (g7_septets_err rs e' E).
+Qed.
+Theorem compose_obs_model rs : compose_obs_ok rs (compose rs) = true.
+Proof.
+  unfold compose_obs_ok, compose. cbv zeta. destruct (140 <? splitter_len (best rs) rs) eqn:E.
+  - destruct (encode_l (best rs) rs); reflexivity.
+  - destruct (encode_l (best rs) rs) as [bs|e|] eqn:X.
+    + rewrite N.eqb_refl, beq_bytes_refl. reflexivity.
+    + rewrite (encode_l_err _ _ _ X). reflexivity.
+    + reflexivity.
 Qed.
